@@ -82,6 +82,12 @@ func (g *gen) ocElement(m *mod, parent *scope, pst *stmt, depth int, elems *[]*o
 	structural := !isList && depth < g.maxDep && g.chance(10, "oc-structural")
 	el := &ocElem{m: m, config: config && !stateOnly}
 	el.body = &scope{m: m, names: map[string]bool{"config": true, "state": true}, camel: map[string]bool{"Config": true, "State": true}, config: el.config, depth: depth + 1, list: isList, inGrp: true}
+	if isList {
+		el.body.kinfo = &keyInfo{}
+		if depth == 0 {
+			el.body.kinfo.structCamel = camelCase(name) // compressed: /<name>s/<name> becomes struct <Name>
+		}
+	}
 
 	// groupings with the leaves
 	var cfgG, stG *stmt
@@ -95,7 +101,7 @@ func (g *gen) ocElement(m *mod, parent *scope, pst *stmt, depth int, elems *[]*o
 	}
 	if !structural {
 		cfgG = m.top.add("grouping", gname+"-config")
-		leafScope := &scope{m: m, st: cfgG, names: el.body.names, camel: el.body.camel, inGrp: true, config: true, depth: depth + 2}
+		leafScope := &scope{m: m, st: cfgG, names: el.body.names, camel: el.body.camel, inGrp: true, config: true, depth: depth + 2, kinfo: el.body.kinfo}
 		hk := []string(nil)
 		if isList {
 			hk = g.hostileKeys(leafScope, name, nKeys)
@@ -113,7 +119,7 @@ func (g *gen) ocElement(m *mod, parent *scope, pst *stmt, depth int, elems *[]*o
 		}
 		if g.chance(65, "oc-hasstate") {
 			stG = m.top.add("grouping", gname+"-state")
-			stScope := &scope{m: m, st: stG, names: el.body.names, camel: el.body.camel, inGrp: true, config: false, depth: depth + 2}
+			stScope := &scope{m: m, st: stG, names: el.body.names, camel: el.body.camel, inGrp: true, config: false, depth: depth + 2, kinfo: el.body.kinfo}
 			for i, n := 0, g.intn(1, 2, "oc-nstate"); i < n; i++ {
 				g.addLeafOC(stScope, leafOpts{}, *elems)
 			}
@@ -250,10 +256,7 @@ func (g *gen) nodeNameOC(sc *scope, label string) string {
 // the state instantiation).
 func (g *gen) addLeafOC(sc *scope, o leafOpts, elems []*ocElem) (string, *typ) {
 	g.budget--
-	name := o.name
-	if name == "" {
-		name = g.nodeName(sc, "leaf")
-	}
+	name := g.leafName(sc, o)
 	sc.take(name)
 	st := sc.st.add("leaf", name)
 	var t *typ
@@ -316,7 +319,7 @@ func (g *gen) ocAugment(m *mod, elems []*ocElem, all *[]*ocElem) {
 		gname := fmt.Sprintf("aug-%d", len(m.grpNames)+1)
 		m.grpNames[gname] = true
 		gst := m.top.add("grouping", gname+"-config")
-		sc := &scope{m: m, st: gst, names: e.body.names, camel: e.body.camel, inGrp: true, config: true, depth: e.body.depth + 1}
+		sc := &scope{m: m, st: gst, names: e.body.names, camel: e.body.camel, inGrp: true, config: true, depth: e.body.depth + 1, kinfo: e.body.kinfo}
 		for i, n := 0, g.intn(1, 2, "oc-augnleaves"); i < n; i++ {
 			g.addLeafOC(sc, leafOpts{}, nil)
 		}
@@ -325,7 +328,7 @@ func (g *gen) ocAugment(m *mod, elems []*ocElem, all *[]*ocElem) {
 		g.feat("oc-augment-config-state")
 	} else {
 		ast := m.top.add("augment", p.String())
-		sc := &scope{m: m, st: ast, names: e.body.names, camel: e.body.camel, schPath: e.schPath, config: e.config, depth: e.body.depth, inGrp: true}
+		sc := &scope{m: m, st: ast, names: e.body.names, camel: e.body.camel, schPath: e.schPath, config: e.config, depth: e.body.depth, inGrp: true, kinfo: e.body.kinfo}
 		g.ocElement(m, sc, ast, e.body.depth, all, e.config)
 		g.feat("oc-augment-element")
 	}
